@@ -23,14 +23,23 @@ class _CE:
     data = {}
 
 
+async def _inline_executor(func, *args):
+    return func(*args)
+
+
 def install_stub_hass():
     hass = types.SimpleNamespace(
+        async_add_executor_job=_inline_executor,
         data={DOMAIN: {CONFIG_ENTRY: _CE()}},
         states=types.SimpleNamespace(get=lambda n: None),
         services=types.SimpleNamespace(has_service=lambda d, s: False),
+        config=types.SimpleNamespace(path=lambda *a: "/nonexistent-pyscript-dir"),
     )
     Function.hass = hass
     State.hass = hass
+    from custom_components.pyscript.decorator import DecoratorRegistry
+
+    DecoratorRegistry._decorators = {}  # interpreter-only harness: no trigger decorators
     return hass
 
 
@@ -139,18 +148,17 @@ def _canon(v, ids, depth=0):
     if isinstance(v, (range, slice)):
         return (type(v).__name__, repr(v))
     if isinstance(v, (EvalFuncVar, EvalFunc)):
-        return ("func", v.get_name())
+        return ("func",)
     if isinstance(v, BaseException):
         return ("exc", type(v).__name__, tuple(_canon(a, ids, depth + 1) for a in v.args))
     if isinstance(v, type):
         return ("class", v.__name__)
     if isinstance(v, types.ModuleType):
         return ("module", v.__name__)
+    if isinstance(v, (types.FunctionType, types.MethodType)):
+        return ("func",)  # names of function objects are metadata, not compared
     if callable(v) and hasattr(v, "__name__"):
-        n = v.__name__
-        if n == "__lambda_defn_temp__":
-            n = "<lambda>"
-        return ("func", n)
+        return ("callable", v.__name__)
     if hasattr(v, "__dict__"):
         first = id(v) not in ids
         if first:
